@@ -279,7 +279,7 @@ def c13k(prog, rep, R="C13.k"):
             for h in sorted(heads):
                 tb = Table(prog, x, start=h, stop=heads, inline=1, max_paths=6000)
                 for (cons, res), eff, end in zip(tb.rows, tb.effects, tb.ends):
-                    if end is None and res is not None and render(res) == "Continue":
+                    if end is None and res is not None and render(res).split("(")[0] == "Continue":      # ParseState::Continue / ControlFlow::Continue(())
                         n += 1
                         if eff:
                             bad.append("returns Continue after consuming (%s)" % "; ".join(str(e)[:50] for e in eff[:2]))
